@@ -1105,6 +1105,7 @@ pub(crate) fn calculate_func_call_order(
         let mut missing_arg_names: HashSet<String> = func_arg_info.required_args.clone();
         // TODO: still need to account for: can't put unnamed args after the first named arg.
         let mut unknown_name_encountered = false;
+        let mut surplus_args: Vec<Rc<Expr>> = vec![];
         for (i, arg) in args.iter().enumerate() {
             if let Some(name) = &arg.name {
                 named_encountered = true;
@@ -1132,8 +1133,21 @@ pub(crate) fn calculate_func_call_order(
                     let name = &func_arg_info.arg_indices[i as u32];
                     seen_named_args.insert(name.clone());
                     missing_arg_names.remove(name);
+                } else {
+                    surplus_args.push(arg.val.clone());
                 }
             }
+        }
+        if let Some(first_surplus) = surplus_args.first() {
+            ctx.errors.push(Error::GenericWithNode {
+                msg: format!(
+                    "Too many arguments: expected at most {}, found {}",
+                    func_arg_info.nargs,
+                    func_arg_info.nargs + surplus_args.len()
+                ),
+                node: first_surplus.node(),
+            });
+            return;
         }
         if !missing_arg_names.is_empty() {
             let mut msg = String::new();
